@@ -55,6 +55,9 @@ type FarmOpts struct {
 	B   int `json:"b"`   // counterparty (user index, != A)
 	Eth int `json:"eth"` // ethereum key index (OLVM sender, embedded eth txs)
 	Var int `json:"var"` // perturbs amounts / memos of the subject transactions
+	// Fork: where the genesis puts the fork (EVM switch, forced staking options): 0 = block 1 (the farm's default),
+	// 1 = height 1000 (never reached), 2 = disabled; without the fork there is no EVM: no contracts, no OLVM subject
+	Fork int `json:"fork,omitempty"`
 }
 
 // FarmParams is the genesis configuration the farm script is written for.
@@ -101,6 +104,12 @@ func PrepareFarmParams(p sim.Params, o FarmOpts) sim.Params {
 	p.PreEthBalances = []sim.PreBal{
 		{User: o.A, Cur: "ETH", Amount: "500000"},
 		{User: o.A, Cur: "TTC", Amount: "700000"},
+	}
+	switch o.Fork {
+	case 1:
+		p.Frankenstein = 1000
+	case 2:
+		p.Frankenstein = 0
 	}
 	return p
 }
@@ -164,6 +173,9 @@ func BuildFarm(w *World, o FarmOpts) *Farm {
 		d.Note = fmt.Sprintf("olvm:%s:%d", dep.Name, i)
 		deploys = append(deploys, d)
 		f.Contract[c.name] = ethcrypto.CreateAddress(dep.Addr, uint64(i))
+	}
+	if o.Fork != 0 {
+		deploys = nil // no EVM without the fork
 	}
 	run(deploys...)
 	run(
@@ -329,6 +341,9 @@ func (f *Farm) Make(kind string) (txgen.Tx, error) {
 		}
 		return txgen.Tx{}, fmt.Errorf("no witness")
 	case "OLVM":
+		if f.O.Fork != 0 {
+			return txgen.Tx{}, fmt.Errorf("no EVM in this genesis (fork variant %d)", f.O.Fork)
+		}
 		return f.MakeOLVM(0, 12345+k), nil
 	case "BID_CREATE":
 		// a new conversation of B on an asset of its own (the example asset type: every name is available), so that
